@@ -108,8 +108,8 @@ theorem c18_compatible_rename_fields {p : Prog} (h : Field → Field)
     (audit p { p with structs := p.structs.map fun s => { s with fields := s.fields.map h } }).any
       Finding.isError = false := by
   refine c18_compatible_edits hw hw' ?_
-  obtain ⟨c1, c2, c3, _, c5⟩ := compatible_refl hw
-  refine ⟨c1, c2, c3, fun s hs => ?_, c5⟩
+  obtain ⟨c0, c1, c2, c3, _, c5⟩ := compatible_refl hw
+  refine ⟨c0, c1, c2, c3, fun s hs => ?_, c5⟩
   exact ⟨_, List.mem_map_of_mem hs, rfl, rfl, fieldsCompat_map h hpres⟩
 
 /-- Adding a field that is not `required` (optional or default) to one struct. -/
@@ -121,8 +121,8 @@ theorem c18_compatible_add_field {p : Prog} (target : StructLike) (g : Field)
                   if s = target then { s with fields := s.fields ++ [g] } else s }).any
       Finding.isError = false := by
   refine c18_compatible_edits hw hw' ?_
-  obtain ⟨c1, c2, c3, _, c5⟩ := compatible_refl hw
-  refine ⟨c1, c2, c3, fun s hs => ⟨_, List.mem_map_of_mem hs, ?_⟩, c5⟩
+  obtain ⟨c0, c1, c2, c3, _, c5⟩ := compatible_refl hw
+  refine ⟨c0, c1, c2, c3, fun s hs => ⟨_, List.mem_map_of_mem hs, ?_⟩, c5⟩
   by_cases hst : s = target
   · simp only [hst, if_true, true_and]
     refine ⟨fun f hf => ⟨f, List.mem_append_left _ hf, rfl, rfl, Iff.rfl⟩, fun g' hg' hreq => ?_⟩
@@ -140,8 +140,8 @@ theorem c18_compatible_add_method {p : Prog} (target : Service) (m : Method) (hw
                   if s = target then { s with methods := s.methods ++ [m] } else s }).any
       Finding.isError = false := by
   refine c18_compatible_edits hw hw' ?_
-  obtain ⟨c1, c2, c3, c4, _⟩ := compatible_refl hw
-  refine ⟨c1, c2, c3, c4, fun s hs => ⟨_, List.mem_map_of_mem hs, ?_⟩⟩
+  obtain ⟨c0, c1, c2, c3, c4, _⟩ := compatible_refl hw
+  refine ⟨c0, c1, c2, c3, c4, fun s hs => ⟨_, List.mem_map_of_mem hs, ?_⟩⟩
   have mc : ∀ x : Method, MethodCompat x x :=
     fun x => ⟨rfl, rfl, fieldsCompat_refl _, fieldsCompat_refl _, fun _ h => h⟩
   by_cases hst : s = target
@@ -159,8 +159,8 @@ theorem c18_compatible_rename_prefix_variables {p : Prog} (h : Name → Name) (h
                   | .var n => .var (h n)
                   | .lit t => .lit t } }).any Finding.isError = false := by
   refine c18_compatible_edits hw hw' ?_
-  obtain ⟨c1, _, c3, c4, c5⟩ := compatible_refl hw
-  refine ⟨c1, fun s hs => ⟨_, List.mem_map_of_mem hs, rfl, ?_, fun o ho => ⟨o, ho, rfl, rfl⟩⟩, c3, c4, c5⟩
+  obtain ⟨c0, c1, _, c3, c4, c5⟩ := compatible_refl hw
+  refine ⟨c0, c1, fun s hs => ⟨_, List.mem_map_of_mem hs, rfl, ?_, fun o ho => ⟨o, ho, rfl, rfl⟩⟩, c3, c4, c5⟩
   generalize s.pfx = l
   induction l with
   | nil => trivial
@@ -170,7 +170,7 @@ theorem c18_compatible_rename_prefix_variables {p : Prog} (h : Name → Name) (h
 (induction over the one-hole context `c`; typedefs may occur anywhere on the way). -/
 theorem c18_any_depth_types {old new : Prog} (c : TyCtx) {a b : Ty}
     (hra : Resolves old (c.plug a)) (hrb : Resolves new (c.plug b))
-    (hab : ∃ x y, ResTo old.typedefs a x ∧ ResTo new.typedefs b y ∧ x ≠ y) :
+    (hab : ∃ x y, ResTo old.env a x ∧ ResTo new.env b y ∧ x ≠ y) :
     (checkType (Ctx.of old new) false (some (c.plug a)) (some (c.plug b))).any Finding.isError = true :=
   (checkType_some hra hrb).mpr (typeChanged_plug c hra hrb hab)
 
@@ -181,7 +181,7 @@ theorem c18_any_depth {old new : Prog} (ho : WF old) (hn : WF new)
     (hk : s'.kind = s.kind) (hname : s'.name = s.name)
     (hf : f ∈ s.fields) (hg : g ∈ s'.fields) (hid : g.id = f.id)
     (c : TyCtx) {a b : Ty} (hfa : f.ty = c.plug a) (hgb : g.ty = c.plug b)
-    (hab : ∃ x y, ResTo old.typedefs a x ∧ ResTo new.typedefs b y ∧ x ≠ y) :
+    (hab : ∃ x y, ResTo old.env a x ∧ ResTo new.env b y ∧ x ≠ y) :
     (audit old new).any Finding.isError = true := by
   rw [c18_iff ho hn]
   refine Or.inr (Or.inr (Or.inl ⟨s, hs, Or.inr ⟨s', hs', hk, hname, Or.inl ⟨f, hf, g, hg, hid, Or.inl ?_⟩⟩⟩))
@@ -195,7 +195,7 @@ theorem c18_any_depth_argument {old new : Prog} (ho : WF old) (hn : WF new)
     (hname : s'.name = s.name) (hm : m ∈ s.methods) (hm' : m' ∈ s'.methods) (hmn : m'.name = m.name)
     (hf : f ∈ m.args) (hg : g ∈ m'.args) (hid : g.id = f.id)
     (c : TyCtx) {a b : Ty} (hfa : f.ty = c.plug a) (hgb : g.ty = c.plug b)
-    (hab : ∃ x y, ResTo old.typedefs a x ∧ ResTo new.typedefs b y ∧ x ≠ y) :
+    (hab : ∃ x y, ResTo old.env a x ∧ ResTo new.env b y ∧ x ≠ y) :
     (audit old new).any Finding.isError = true := by
   rw [c18_iff ho hn]
   refine Or.inr (Or.inr (Or.inr ⟨s, hs, Or.inr ⟨s', hs', hname, Or.inr ⟨m, hm, Or.inr ⟨m', hm', hmn,
@@ -205,6 +205,62 @@ theorem c18_any_depth_argument {old new : Prog} (ho : WF old) (hn : WF new)
     intro m f h; simp only [Method.tys, List.mem_append, List.mem_map]; exact Or.inl (Or.inr ⟨f, h, rfl⟩)
   exact typeChanged_plug c (hfa ▸ wf_resolves ho _ (mem_allTys_method hs hm (mem_arg m f hf)))
     (hgb ▸ wf_resolves hn _ (mem_allTys_method hs' hm' (mem_arg m' g hg))) hab
+
+/-! ### Includes: `inc.n` is resolved in the included file only -/
+
+/-- What a qualified name `inc.n` denotes does not depend on the typedefs of the file that uses
+it — in particular not on a local typedef that happens to be called `n` too. -/
+theorem c18_qualified_ignores_local_typedefs (incs : List IncFile) (tds tds' : List Typedef)
+    (i n : Name) (f : Nat) {b : Ty} (hb : (TEnv.mk tds incs).inInc i n = some b)
+    (hfree : b.nameFree = true) :
+    resolve? ⟨tds, incs⟩ (f + 1) (.qual i n) = resolve? ⟨tds', incs⟩ (f + 1) (.qual i n) := by
+  have hb' : (TEnv.mk tds' incs).inInc i n = some b := hb
+  simp only [resolve?, hb, hb']
+  exact resolve?_nameFree hfree
+
+/-- `checkType` on a qualified typedef: a change of the included file's typedef body is seen,
+whatever local declarations are called. -/
+theorem c18_iff_types_qualified {old new : Prog} {i n j m : Name}
+    (ha : Resolves old (.qual i n)) (hb : Resolves new (.qual j m)) :
+    (checkType (Ctx.of old new) false (some (.qual i n)) (some (.qual j m))).any Finding.isError = true ↔
+      TypeChanged old new (.qual i n) (.qual j m) :=
+  checkType_some ha hb
+
+/-! ### The command line: `frugal -audit old f1 … fk` -/
+
+/-- The exit status is the OR of the per-file verdicts. -/
+theorem c18_cli_or (old : Prog) (fs : List Prog) :
+    cliAudit old fs = true ↔ ∃ f ∈ fs, (audit old f).any Finding.isError = true := by
+  unfold cliAudit
+  induction fs with
+  | nil => simp [cliLoop]
+  | cons f fs ih =>
+    simp only [cliLoop, Bool.false_or, List.mem_cons, exists_eq_or_imp, auditFails]
+    cases h : (audit old f).any Finding.isError
+    · simpa [auditFails] using ih
+    · simp
+
+/-- …hence: exit status ≠ 0 iff at least one of the files breaks against `old`. -/
+theorem c18_cli_iff {old : Prog} {fs : List Prog} (ho : WF old) (hn : ∀ f ∈ fs, WF f) :
+    cliAudit old fs = true ↔ ∃ f ∈ fs, Breaking old f := by
+  rw [c18_cli_or]
+  exact ⟨fun ⟨f, hf, h⟩ => ⟨f, hf, (c18_iff ho (hn f hf)).mp h⟩,
+    fun ⟨f, hf, h⟩ => ⟨f, hf, (c18_iff ho (hn f hf)).mpr h⟩⟩
+
+/-- The file the failure names is the first breaking one. -/
+theorem c18_cli_first {old : Prog} {fs : List Prog} {k : Nat}
+    (h : cliFirstFailing old fs = some k) :
+    ∃ f, fs[k]? = some f ∧ (audit old f).any Finding.isError = true ∧
+      ∀ j, j < k → ∀ g, fs[j]? = some g → (audit old g).any Finding.isError = false := by
+  unfold cliFirstFailing at h
+  rw [List.findIdx?_eq_some_iff_getElem] at h
+  obtain ⟨hk, hp, hlt⟩ := h
+  refine ⟨fs[k], by simp [hk], by simpa [auditFails] using hp, fun j hj g hg => ?_⟩
+  have hj' : j < fs.length := Nat.lt_trans hj hk
+  have := hlt j hj
+  rw [List.getElem?_eq_getElem hj'] at hg
+  cases hg
+  simpa [auditFails] using this
 
 /-! ### Non-vacuity: the hypotheses are satisfiable by non-trivial programs -/
 
@@ -260,10 +316,74 @@ example : Breaking exOld exBroken := by decide
 example : (audit exOld exBroken).any Finding.isError = true := by decide
 
 /-- The hypotheses of `c18_any_depth` on that pair: context `list<map<string, set<□>>>`. -/
-example : ∃ x y, ResTo exOld.typedefs (.named "Id") x ∧ ResTo exBroken.typedefs (.named "Id") y ∧ x ≠ y :=
+example : ∃ x y, ResTo exOld.env (.named "Id") x ∧ ResTo exBroken.env (.named "Id") y ∧ x ≠ y :=
   ⟨.base "i64", .base "i32", ⟨3, by decide⟩, ⟨3, by decide⟩, by decide⟩
 
 example : (TyCtx.list (.mapVal (.base "string") (.set .hole))).plug (.named "Id")
     = .list (.map (.base "string") (.set (.named "Id"))) := rfl
+
+/-! Includes with a name collision: the file and its include `base` both declare `ID`
+(and a struct `Rec`); `owner` is a `base.ID`, `label` a local `ID`. -/
+def exBase (idBody : Ty) : IncFile :=
+  { name := "base", typedefs := [⟨"ID", idBody⟩, ⟨"Ids", .list (.base "i64")⟩], decls := ["Rec"] }
+
+def exInc (owner label : Ty) (idBody : Ty) : Prog where
+  typedefs := [⟨"ID", .base "string"⟩, ⟨"Mine", .qual "base" "ID"⟩]
+  structs := [⟨.struct, "Rec", [⟨1, "owner", .dflt, owner, none⟩, ⟨2, "label", .dflt, label, none⟩,
+                                ⟨3, "peers", .dflt, .map (.named "Mine") (.qual "base" "Rec"), none⟩]⟩]
+  includes := [exBase idBody]
+
+example : WF (exInc (.qual "base" "ID") (.named "ID") (.base "i64")) := by decide
+/-- `base.ID` (i64) replaced by the local `ID` (string): breaking, and reported. -/
+example : Breaking (exInc (.qual "base" "ID") (.named "ID") (.base "i64"))
+    (exInc (.named "ID") (.named "ID") (.base "i64")) := by decide
+example : (audit (exInc (.qual "base" "ID") (.named "ID") (.base "i64"))
+    (exInc (.named "ID") (.named "ID") (.base "i64"))).any Finding.isError = true := by decide
+/-- the included file's `ID` changes behind the qualified name (and behind the local `Mine`). -/
+example : (audit (exInc (.qual "base" "ID") (.named "ID") (.base "i64"))
+    (exInc (.qual "base" "ID") (.named "ID") (.base "i32"))).any Finding.isError = true := by decide
+/-- `base.ID` spelled out as `i64`, `ID` as `string`: compatible. -/
+example : (audit (exInc (.qual "base" "ID") (.named "ID") (.base "i64"))
+    (exInc (.base "i64") (.base "string") (.base "i64"))).any Finding.isError = false := by decide
+
+/-- Command line: a breaking file between two harmless ones. -/
+example : cliAudit exOld [exCompat, exBroken, exOld] = true ∧
+    cliFirstFailing exOld [exCompat, exBroken, exOld] = some 1 ∧
+    cliAudit exOld [exCompat, exOld] = false := by decide
+
+/-! ### Known finding (KNOWN_FINDINGS.txt `include-typedef-second-hop`, shared with C02/C11)
+
+A typedef chain whose second hop lies inside the included file: `base` declares
+`typedef i64 id; typedef id userId`, the file uses `base.userId`. Read in its own file the body
+`id` is `base.id`; the code (and so the model) looks `id` up in the including file. The pair
+below differs only in `base.id` (i64 → i32): the field's type changed, the audit passes. Such
+programs are outside `WF` (last clause), which is exactly where `c18_iff` stops. -/
+def exHop (idBody : Ty) : Prog where
+  structs := [⟨.struct, "M", [⟨1, "u", .dflt, .qual "base" "userId", none⟩]⟩]
+  includes := [{ name := "base", typedefs := [⟨"id", idBody⟩, ⟨"userId", .named "id"⟩] }]
+
+theorem c18_iff_counterexample :
+    -- the field's type, read across the files, changed …
+    resolveAcross? (exHop (.base "i64")).env 5 (.qual "base" "userId")
+      ≠ resolveAcross? (exHop (.base "i32")).env 5 (.qual "base" "userId")
+    -- … the audit passes …
+    ∧ (audit (exHop (.base "i64")) (exHop (.base "i32"))).any Finding.isError = false
+    -- … and the programs are not in the fragment of `c18_iff`.
+    ∧ ¬ WF (exHop (.base "i64")) := by decide
+
+/-- On the well-formed fragment both readings of an included typedef agree (bodies without
+names are not touched by re-qualification). -/
+theorem c18_requal_nameFree (i : Name) : ∀ t : Ty, t.nameFree = true → t.requal i = t := by
+  intro t
+  induction t with
+  | base n => intro _; rfl
+  | named n => intro h; simp [Ty.nameFree] at h
+  | qual j n => intro h; simp [Ty.nameFree] at h
+  | list x ih => intro h; simp only [Ty.requal]; rw [ih (by simpa [Ty.nameFree] using h)]
+  | set x ih => intro h; simp only [Ty.requal]; rw [ih (by simpa [Ty.nameFree] using h)]
+  | map k v ihk ihv =>
+    intro h
+    simp only [Ty.nameFree, Bool.and_eq_true] at h
+    simp only [Ty.requal]; rw [ihk h.1, ihv h.2]
 
 end FV.C18
